@@ -85,12 +85,14 @@ int main(int argc, char **argv)
     A = new Logger; B = new Logger;
     A->append(SinkPtr(new Rec("A"))); B->append(SinkPtr(new Rec("B")));
     std::vector<int> h;
-    std::function<void()> rec = [&] {
-        if (!h.empty()) runHistory(h);
-        if ((int)h.size() == depth) return;
-        for (int op = 0; op < 5; op++) { h.push_back(op); rec(); h.pop_back(); }
-    };
-    rec();
+    // shortest histories first, so that the first counterexample reported is a minimal one
+    for (int d = 1; d <= depth; d++) {
+        std::function<void()> rec = [&] {
+            if ((int)h.size() == d) { runHistory(h); return; }
+            for (int op = 0; op < 5; op++) { h.push_back(op); rec(); h.pop_back(); }
+        };
+        rec();
+    }
     sum.states = sum.cases;
     sum.bound = "handler-protocol histories <= " + std::to_string(depth) + " over 5 operations (no state merging)";
     qInstallMessageHandler(nullptr);
